@@ -1,0 +1,60 @@
+//go:build verif
+
+package loader
+
+import (
+	"context"
+	"fmt"
+)
+
+// Thin exported wrappers for the C05 (extends) verification harness.  Compiled only with the `verif` build tag.
+
+// VerifApplyExtends runs ApplyExtends with a fresh cycle tracker, as loadYamlFile does for a file without `!reset` tags.
+func VerifApplyExtends(ctx context.Context, dict map[string]any, opts *Options) error {
+	return ApplyExtends(ctx, dict, opts, &cycleTracker{})
+}
+
+// VerifApplyExtendsOrdered is the loop of ApplyExtends with the visit order of the services map chosen by the caller
+// (Go's own order is random).
+func VerifApplyExtendsOrdered(ctx context.Context, dict map[string]any, opts *Options, order []string) error {
+	a, ok := dict["services"]
+	if !ok {
+		return nil
+	}
+	services, ok := a.(map[string]any)
+	if !ok {
+		return fmt.Errorf("services must be a mapping")
+	}
+	tracker := &cycleTracker{}
+	for _, name := range order {
+		if _, ok := services[name]; !ok {
+			continue
+		}
+		merged, err := applyServiceExtends(ctx, name, services, opts, tracker)
+		if err != nil {
+			return err
+		}
+		services[name] = merged
+	}
+	dict["services"] = services
+	return nil
+}
+
+// VerifGetExtendsBaseFromFile exposes getExtendsBaseFromFile (the services of an extended file, relative paths resolved).
+func VerifGetExtendsBaseFromFile(ctx context.Context, name, ref, path, refPath string, opts *Options) (map[string]any, error) {
+	services, _, err := getExtendsBaseFromFile(ctx, name, ref, path, refPath, opts, &cycleTracker{})
+	return services, err
+}
+
+// VerifTrackerAdd feeds the keys to a fresh cycleTracker one after the other; it returns the index of the first rejected key, or -1.
+func VerifTrackerAdd(keys [][2]string) int {
+	ct := &cycleTracker{}
+	for i, k := range keys {
+		next, err := ct.Add(k[0], k[1])
+		if err != nil {
+			return i
+		}
+		ct = next
+	}
+	return -1
+}
